@@ -109,6 +109,22 @@ fn main() {
                     }
                 }
                 "C20" => c20::record(n, &mut out),
+                "VERIFY" => {
+                    // random pipeline runs beyond the TLC bounds, as a trace for Trace_Verify
+                    let mut rng = common::rng(77);
+                    let mut ctx = verify::Ctx::new(&common::family(), "RANDOM");
+                    let work = tempfile::tempdir().unwrap();
+                    std::env::set_current_dir(work.path()).unwrap();
+                    for run in 0..n {
+                        let scn = verify::random_scn(&mut rng);
+                        let r = ctx.run(&scn, true, true);
+                        writeln!(out, "{}", json!({"ev": "reset", "run": run, "scn": r["reset"]})).unwrap();
+                        for e in r["ev"].as_array().unwrap() {
+                            writeln!(out, "{}", e).unwrap();
+                        }
+                        writeln!(out, "{}", json!({"ev": "result", "out": r["out"]})).unwrap();
+                    }
+                }
                 "C14mut" => writeln!(out, "{}", c14::mutate(n)).unwrap(),
                 "C19meta" => writeln!(out, "{}", wire::from_meta_checks(n)).unwrap(),
                 "C09bits" => writeln!(out, "{}", lifecycle::Ctx::new(&common::family()).all_bits(n)).unwrap(),
